@@ -151,3 +151,79 @@ func e2Health(run *vlib.Run) {
 		run.Inconclusive("the reference validator rejected %d of %d by-construction valid documents (> 1%%)", mism, docs+mism)
 	}
 }
+
+// e2Prepared is a batch of cases generated, compiled and ready to be driven.
+type e2Prepared struct {
+	batch      *e2.Batch
+	work       string
+	ids        []string
+	validators []*smodel.Validator
+	// usable[i]: the case was generated, compiles and has a reference validator
+	usable []bool
+}
+
+func (p *e2Prepared) Close() {
+	p.batch.Close()
+	removeAll(p.work)
+}
+
+// e2Prepare generates and compiles a batch of cases for Go output.
+func e2Prepare(run *vlib.Run, prefix string, cases []schemaCase, out e2.OutputSpec) (*e2Prepared, error) {
+	p := &e2Prepared{work: workDir(prefix)}
+	batch, err := e2.NewBatch(p.work + "/mod")
+	if err != nil {
+		return nil, err
+	}
+	p.batch = batch
+	p.validators = make([]*smodel.Validator, len(cases))
+	p.usable = make([]bool, len(cases))
+	for i, c := range cases {
+		id := fmt.Sprintf("c%02d", i)
+		p.ids = append(p.ids, id)
+		v, verr := smodel.NewValidator(c.Format, c.Model, c.source())
+		if verr != nil {
+			count(run, "generator_oracle_mismatch:rendering", 1)
+			continue
+		}
+		p.validators[i] = v
+		g := generateGo(p.work, id, c, out)
+		switch {
+		case g.genPanic != "":
+			count(run, "skipped_panics", 1)
+			count(run, "skipped_panic:"+g.panicSig, 1)
+		case g.genErr != nil:
+			count(run, "rejected", 1)
+			count(run, "rejected:"+string(c.Format), 1)
+			note(run, "cog refused a %s schema: %v", c.Format, firstLine(g.genErr.Error()))
+		default:
+			if err := batch.Add(id, g.files); err != nil {
+				p.Close()
+				return nil, err
+			}
+			p.usable[i] = true
+		}
+	}
+	if err := batch.Build(); err != nil {
+		p.Close()
+		return nil, err
+	}
+	for i := range cases {
+		if p.usable[i] && len(batch.CompileErrors[p.ids[i]]) > 0 {
+			p.usable[i] = false
+			count(run, "uncompilable", 1)
+			note(run, "uncompilable %s package: %s", cases[i].Format, batch.CompileErrors[p.ids[i]][0])
+		} else if p.usable[i] {
+			count(run, "programs", 1)
+		}
+	}
+	return p, nil
+}
+
+// goKey returns the driver key of a definition's Go type.
+func (p *e2Prepared) goKey(i int, def string) (string, bool) {
+	t, ok := goTypeFor(p.batch.Types[p.ids[i]], def)
+	if !ok {
+		return "", false
+	}
+	return p.ids[i] + "/" + t, true
+}
